@@ -76,6 +76,8 @@ source_generics = st.one_of(
     st.tuples(st.sampled_from([["c", "str"], ["c", "int"]]), _cls_leaf).map(lambda p: ["P585", "dict", p[0], p[1]]),
     st.tuples(_cls_leaf, st.sampled_from([["c", "None"], ["c", "int"], ["c", "nmfoo.Baz"]])).filter(lambda p: p[0] != p[1]).map(lambda p: ["P604", p[0], p[1]]),
     st.tuples(_cls_leaf).map(lambda p: ["P585", "list", ["P604", p[0], ["c", "None"]]]),
+    # a user-defined generic class, also with None as its argument
+    st.one_of(_cls_leaf, st.just(["c", "None"]), st.just(["c", "None"])).map(lambda t: ["UserGen", t]),
 )
 general_types = st.recursive(st.one_of(leaf, leaf, leaf, source_generics), ext, max_leaves=8)
 
@@ -95,11 +97,23 @@ def _w(t, how):
     return {"List": ["List", t], "Set": ["List", t], "opt": ["Union", [t, ["c", "None"]]], "bare": t}[how]
 
 
-types = st.one_of(general_types, general_types, general_types, sibling_tds)
+# types as inference produces them from grammar values (k=10): whatever container kinds get_type descends into, the renderer
+# and the TypedDict-to-class rewriter must handle
+from . import vals as _vals
+_irec = st.lists(st.tuples(st.sampled_from(["alpha", "beta"]), st.sampled_from([["lit", 0], ["lit", "x"], ["inst", "D1"]])).map(lambda kv: [["lit", kv[0]], kv[1]]),
+                 min_size=1, max_size=2, unique_by=lambda kv: kv[0][1]).map(lambda l: ["dict", l])
+inferred_types = st.one_of(_vals.values(2), st.tuples(st.sampled_from(["deque", "list", "tuple", "odict", "ddict", "set-of-tuples"]), _irec).map(
+    lambda p: {"deque": ["deque", [p[1]]], "list": ["list", [p[1]]], "tuple": ["tuple", [p[1], ["lit", 1]]], "odict": ["odict", [[["lit", "a"], p[1]]]],
+               "ddict": ["ddict", [[["lit", 0], p[1]]]], "set-of-tuples": ["set", [["tuple", [["lit", 1], ["lit", "s"]]]]]}[p[0]])).map(lambda v: ["inferred", v])
+types = st.one_of(general_types, general_types, general_types, sibling_tds, inferred_types,
+                  st.sampled_from([["UserGen", ["c", "None"]], ["UserGen", ["c", "nmutils.A"]], ["CallableP", [], ["c", "None"]], ["Gen1", "Iterable", ["c", "None"]]]))
 
 
 def build(s, C):
     k = s[0]
+    if k == "inferred":
+        from monkeytype.typing import get_type
+        return get_type(_vals.build(s[1]), 10)
     if k == "c":
         return C[s[1]]
     if k == "Any":
@@ -146,11 +160,16 @@ def build(s, C):
         return {"list": list, "set": set, "frozenset": frozenset, "type": type}[s[1]][build(s[2], C)]
     if k == "P604":
         return build(s[1], C) | build(s[2], C)
+    if k == "UserGen":
+        import nmfoo
+        return nmfoo.Box[build(s[1], C)]
     raise ValueError(s)
 
 
 def modules_of(s, acc=None):
     acc = set() if acc is None else acc
+    if s[0] == "inferred":
+        return acc
     if s[0] in ("c", "Type"):
         n = s[1]
         if "." in n:
@@ -169,6 +188,8 @@ def modules_of(s, acc=None):
 def has_kind(s, kind):
     if s[0] == kind:
         return True
+    if s[0] == "inferred":
+        return kind == "TD" and "dict" in repr(s)
     for e in s[1:]:
         if isinstance(e, list):
             if e and isinstance(e[0], str):
@@ -213,6 +234,8 @@ def td_nodes_with_identity(tspecs):
     out = []
 
     def walk(s, func, pos, keys):
+        if s[0] == "inferred":
+            return
         if s[0] == "TD":
             hint = keys[-1] if keys else pos
             out.append((hint, (func, pos, tuple(keys)), repr(s)))
@@ -311,6 +334,9 @@ def check(ctx, tspecs, k):
         if tdund:
             return ctx.fail("C11/typeddict-under-undescended-generic-rendered-as-DUMMY_NAME", spec, text[:1500])
         return ctx.fail("C11/DUMMY_NAME-in-stub", spec, text[:1500])
+    if stub["dupes"] and "inferred" in repr(tspecs):
+        ctx.label("skipped:colliding-class-names-with-inferred-typeddicts")  # the name-coincidence test reads type specs only
+        return
     if stub["dupes"]:
         if name_coincidence(tspecs):
             ctx.fail("C11/generated-typeddict-class-names-collide", spec, f"classes {sorted(set(stub['dupes']))} defined twice with different bodies\n{text[:1500]}")
@@ -378,6 +404,8 @@ def signature_modules(types_):
                 mods.add(m)
             return
         mods.add("typing")
+        if getattr(og, "__module__", "builtins") not in ("builtins", "typing", "collections", "collections.abc", "types"):
+            mods.add(og.__module__)  # a user-defined generic class is imported from (and stripped of) its own module
         for a in oracle.args(T):
             if isinstance(a, (list, tuple)):
                 for x in a:
